@@ -27,8 +27,20 @@ struct aws_thread_scheduler {
 
 struct cancellation_node {
     struct aws_task *task_to_cancel;
+    /* true if the cancel call itself took the task out of the hand-over queue */
+    bool removed_from_scheduling_queue;
     struct aws_linked_list_node node;
 };
+
+/* Cancels the task unless it is no longer pending: a cancellation that lost the race against the task's run must not
+ * invoke the task a second time. */
+static void s_process_cancellation(struct aws_thread_scheduler *scheduler, struct cancellation_node *cancellation_node) {
+    struct aws_task *task = cancellation_node->task_to_cancel;
+    if (cancellation_node->removed_from_scheduling_queue || task->abi_extension.scheduled) {
+        aws_task_scheduler_cancel_task(&scheduler->scheduler, task);
+    }
+    aws_mem_release(scheduler->allocator, cancellation_node);
+}
 
 static void s_destroy_callback(void *arg) {
     struct aws_thread_scheduler *scheduler = arg;
@@ -51,8 +63,7 @@ static void s_destroy_callback(void *arg) {
     while (!aws_linked_list_empty(&scheduler->thread_data.cancel_queue)) {
         struct aws_linked_list_node *node = aws_linked_list_pop_front(&scheduler->thread_data.cancel_queue);
         struct cancellation_node *cancellation_node = AWS_CONTAINER_OF(node, struct cancellation_node, node);
-        aws_task_scheduler_cancel_task(&scheduler->scheduler, cancellation_node->task_to_cancel);
-        aws_mem_release(scheduler->allocator, cancellation_node);
+        s_process_cancellation(scheduler, cancellation_node);
     }
 
     aws_task_scheduler_clean_up(&scheduler->scheduler);
@@ -107,8 +118,7 @@ static void s_thread_fn(void *arg) {
         while (!aws_linked_list_empty(&cancel_list_cpy)) {
             struct aws_linked_list_node *node = aws_linked_list_pop_front(&cancel_list_cpy);
             struct cancellation_node *cancellation_node = AWS_CONTAINER_OF(node, struct cancellation_node, node);
-            aws_task_scheduler_cancel_task(&scheduler->scheduler, cancellation_node->task_to_cancel);
-            aws_mem_release(scheduler->allocator, cancellation_node);
+            s_process_cancellation(scheduler, cancellation_node);
         }
 
         /* now run everything */
@@ -233,6 +243,7 @@ void aws_thread_scheduler_cancel_task(struct aws_thread_scheduler *scheduler, st
 
     if (found_task) {
         aws_linked_list_remove(&found_task->node);
+        cancellation_node->removed_from_scheduling_queue = true;
     }
 
     cancellation_node->task_to_cancel = task;
